@@ -78,6 +78,23 @@ def make_vals(typ, n, seed):
         return [float(adv(())) for _ in range(n)]
     if typ == "ndarray":
         return [adv((2, 3)) for _ in range(n)]
+    if typ == "ndarray_layouts":
+        # same values, different memory layouts (buffer messages carry raw memory under MPI): C-ordered,
+        # Fortran-ordered, a transposed view, a strided (non-contiguous) view
+        out = []
+        for i in range(n):
+            a = adv((2, 3))
+            how = int(rng.integers(0, 4))
+            if how == 1:
+                a = np.asfortranarray(a)
+            elif how == 2:
+                a = np.ascontiguousarray(a.T).T
+            elif how == 3:
+                big = np.zeros((2, 6))
+                big[:, ::2] = a
+                a = big[:, ::2]
+            out.append(a)
+        return out
     if typ == "field":
         return [ift.makeField(DOM, adv(3)) for _ in range(n)]
     if typ == "multifield":
@@ -91,7 +108,7 @@ def tobytes(typ, v):
         return v.s.encode()
     if typ == "float":
         return np.float64(v).tobytes()
-    if typ == "ndarray":
+    if typ in ("ndarray", "ndarray_layouts"):
         return v.dtype.str.encode() + str(v.shape).encode() + v.tobytes()
     if typ == "field":
         return v.asnumpy().tobytes()
@@ -155,7 +172,7 @@ def compositions(n, k):
 def cases(tier, seed):
     nmax, kmax = (6, 4) if tier == "quick" else (8, 4)
     out = []
-    for typ in ("sym", "float", "ndarray", "field", "multifield"):
+    for typ in ("sym", "float", "ndarray", "ndarray_layouts", "field", "multifield"):
         for k in range(1, kmax + 1):
             for n in range(1, nmax + 1):
                 for parts in compositions(n, k):
